@@ -16,6 +16,8 @@
 (*   "E" syntax error   "P" unclosed delimiter (fatal, caught panic path)   *)
 (*   "N" not UTF-8   "M" declares a module whose file is missing            *)
 (*   "A" declares a module with both x.rs and x/mod.rs                      *)
+(*   "W" formatted, but with CRLF line terminators (differs only under an     *)
+(*       explicit newline_style; `fl.nl` is "auto" or "unix")                 *)
 (*   "C" child also reachable through #[cfg_attr(.., path = "bad.rs")] whose *)
 (*       file has a syntax error (its default file exists and is fine)       *)
 (*   "D" child reachable ONLY through two cfg_attr paths: a good file (this  *)
@@ -173,7 +175,8 @@ Resolve ==
                           /\ UNCHANGED <<ri, pc, rflags, flags, diag>>
   /\ UNCHANGED <<roots, mode, fl, disk, bk, outp, early, rewrites, exit>>
 
-Differs(k) == k \in {"U", "D"}
+Differs(k) == k \in {"U", "D"} \/ (k = "W" /\ fl.nl = "unix")
+LineDiffers(k) == k \in {"U", "D"}    \* what the line-based reports (json, modified) can see
 
 (* filter + format_file + handle_formatted_file + emitter, one file per step *)
 Emit ==
@@ -201,8 +204,10 @@ Emit ==
                                         ELSE outp
                              /\ UNCHANGED <<disk, bk, early, rewrites>>
                         [] EffMode \in {"json", "modified"} ->
-                             /\ rflags' = IF d THEN [rflags EXCEPT !.diff = TRUE] ELSE rflags
-                             /\ outp' = IF d THEN Append(outp, <<"report", ri, next>>) ELSE outp
+                             /\ rflags' = IF LineDiffers(K[next]) THEN [rflags EXCEPT !.diff = TRUE]
+                                          ELSE rflags
+                             /\ outp' = IF LineDiffers(K[next]) THEN Append(outp, <<"report", ri, next>>)
+                                        ELSE outp
                              /\ UNCHANGED <<disk, bk, early, rewrites>>
                         [] OTHER -> (* checkstyle *)
                              /\ outp' = IF d THEN Append(outp, <<"report", ri, next>>) ELSE outp
@@ -235,6 +240,8 @@ Failing(r) == roots[r].fault \in RootFaults
               \/ \E j \in 1 .. roots[r].n : Kinds(r)[j] \in ParseFail \cup ResolveFail \cup Sticky
 Writes == EffMode = "files"
 
+Rewritten(k) == k = "U" \/ (k = "W" /\ fl.nl = "unix")
+
 (* C05 *)
 FailedRootIntact ==
   \A r \in 1 .. Len(roots) : Failing(r) =>
@@ -243,7 +250,7 @@ OtherRootsFormatted ==
   (Done /\ Writes) =>
     \A r \in 1 .. Len(roots) : ~Failing(r) =>
       \A j \in 1 .. roots[r].n :
-         disk[r][j] = (IF Kinds(r)[j] = "U" THEN "new" ELSE "orig")
+         disk[r][j] = (IF Rewritten(Kinds(r)[j]) THEN "new" ELSE "orig")
 ExitOne == Done => ((\E r \in 1 .. Len(roots) : Failing(r)) => exit = 1)
 Diagnosed == Done /\ ~LocalCfgAborts => \A r \in 1 .. Len(roots) : Failing(r) => r \in diag
 NoWriteBeforeResolved == ~early
@@ -251,13 +258,13 @@ NoWriteBeforeResolved == ~early
 (* C06 *)
 ReadOnlyModes ==
   ~Writes => \A r \in 1 .. Len(roots) : \A j \in 1 .. roots[r].n : disk[r][j] = "orig" /\ ~bk[r][j]
-WouldRewrite == \E r \in 1 .. Len(roots) : ~Failing(r) /\ \E j \in 1 .. roots[r].n : Kinds(r)[j] = "U"
+WouldRewrite == \E r \in 1 .. Len(roots) : ~Failing(r) /\ \E j \in 1 .. roots[r].n : Rewritten(Kinds(r)[j])
 ExitRelation ==
   (Done /\ ~\E r \in 1 .. Len(roots) : Failing(r)) =>
       IF fl.check THEN (exit = 1 <=> WouldRewrite) ELSE exit = 0
 WriteOnlyIfDiffers ==
   \A r \in 1 .. Len(roots) : \A j \in 1 .. roots[r].n :
-      (Kinds(r)[j] # "U") => (disk[r][j] = "orig" /\ ~bk[r][j])
+      ~Rewritten(Kinds(r)[j]) => (disk[r][j] = "orig" /\ ~bk[r][j])
 BackupIffChanged ==
   (Done /\ Writes /\ fl.backup) =>
      \A r \in 1 .. Len(roots) : \A j \in 1 .. roots[r].n : bk[r][j] <=> disk[r][j] = "new"
